@@ -490,3 +490,10 @@ def sentinel_arith(db, ctx):
                        "%s: `%s` does arithmetic on ResultNode cumulative costs, which are i32::MAX for nodes produced by splitting (%s); "
                        "no is_connected_to_bos guard dominates it: with a negative operand this overflows (debug panic)" % (
                            f.short(), render(x), sentinel_sites), fn=f, site=x.get("sp"))
+
+
+@rule("C03.no-stale-results", "every accessor of every returned morpheme is safe: stale nodes over a new (shorter) input buffer index out of range (re-evaluation of C10.scalars|reset|clears-results)")
+def no_stale_results(db, ctx):
+    from . import C10
+    C10.reset_clears_results(db, ctx)
+    ctx.floor(1)
